@@ -39,6 +39,16 @@ def hexArg (s : String) : Out Bytes :=
   | some b => .ok b
   | none => .throw .stdOther
 
+/-- a numeric setter of an `n`-byte big-endian member at `off`: `header_.m = Endian::host_to_be<uintN_t>(v)` -/
+def setNum (h : Bytes) (off n : Nat) (v : String) : Out Bytes := do
+  let x ← natArg v
+  pure (setBE h off n x)
+
+/-- a setter copying exactly `n` bytes (address types, byte arrays) to `off` -/
+def setHex (h : Bytes) (off n : Nat) (v : String) : Out Bytes := do
+  let b ← hexArgN v n
+  pure (patch h off b)
+
 /-- comma separated list argument; "-" = empty list -/
 def listArg (s : String) : List String := if s == "-" then [] else s.splitOn ","
 
